@@ -446,6 +446,8 @@ def step (st : DSt) (toks : List String) : DSt × String :=
 def stepTop (st : DSt) (toks : List String) : DSt × String :=
   match toks with
   | "inner" :: rest => step st rest
+  -- the ChaperoneLoop object of the previous healing run heals again (the wrapper keeps no state between runs)
+  | "healr" :: rest => step st ("heal" :: rest)
   | _ => step st toks
 
 def main : IO Unit := runDriver ({} : DSt) stepTop
